@@ -695,8 +695,11 @@ def weaken_av(v, pc):
         return v
     alg = dict(v.alg)
     changed = False
+    ptags = pc.get("__tags__")
+    if ptags and not (ptags <= v.tags):
+        v = v.replace(tags=v.tags | ptags)
     for at, c in pc.items():
-        if c[0] in ("const", "zero"):
+        if at == "__tags__" or c[0] in ("const", "zero"):
             continue
         old = v.a(at)
         new = alg_weaken(old, c)
